@@ -23,10 +23,17 @@ const (
 	lSimpleNil        // NewSimpleProcessor(nil)
 	lBatch            // NewBatchProcessor(recording exporter), export interval 1h
 	lBatchNil         // NewBatchProcessor(nil)
+	// Re-entrant ("instrumented") exporters: their Shutdown emits a record
+	// (body "x") through a logger of the SAME provider, obtained right after
+	// construction. Re-entrancy from Export is not generated: behind the
+	// SimpleProcessor it self-deadlocks on the unchanged tree (OnEmit holds
+	// the processor mutex while it calls Export), see the package comment.
+	lSimpleRS // NewSimpleProcessor(exporter whose Shutdown logs)
+	lBatchRS  // NewBatchProcessor(exporter whose Shutdown logs), export interval 1h
 	lKinds
 )
 
-var lprocNames = []string{"rec", "rec_err", "simple(exp)", "simple(nil)", "batch(exp)", "batch(nil)"}
+var lprocNames = []string{"rec", "rec_err", "simple(exp)", "simple(nil)", "batch(exp)", "batch(nil)", "simple(re-entrant exp)", "batch(re-entrant exp)"}
 
 // LOp is one step of a log program.
 type LOp struct {
@@ -65,7 +72,11 @@ func (p *recLogProc) add(kind byte, id int) int {
 }
 
 func (p *recLogProc) OnEmit(_ context.Context, r *sdklog.Record) error {
-	p.add('o', parseID("r", r.Body().AsString()))
+	if id := parseID("r", r.Body().AsString()); id >= 0 {
+		p.add('o', id)
+	} else {
+		p.add('x', -1) // a record of a re-entrant exporter: history only
+	}
 	return nil
 }
 
@@ -100,25 +111,40 @@ type recLogExp struct {
 	mu        sync.Mutex
 	exports   []expEv
 	shutdowns []ival
+	internal  int        // "x" records received
+	logger    log.Logger // re-entrant exporters: set before the provider is used
 }
 
 func (e *recLogExp) Export(_ context.Context, records []sdklog.Record) error {
 	ev := expEv{}
+	internal := 0
 	for i := range records {
-		ev.Spans = append(ev.Spans, parseID("r", records[i].Body().AsString()))
+		if id := parseID("r", records[i].Body().AsString()); id >= 0 {
+			ev.Spans = append(ev.Spans, id)
+		} else {
+			internal++
+		}
 	}
 	e.mu.Lock()
-	ev.Tick = e.clock.Tick()
-	e.exports = append(e.exports, ev)
+	e.internal += internal
+	if len(ev.Spans) > 0 {
+		ev.Tick = e.clock.Tick()
+		e.exports = append(e.exports, ev)
+	}
 	e.mu.Unlock()
 	return nil
 }
 func (e *recLogExp) ForceFlush(context.Context) error { return nil }
 func (e *recLogExp) Shutdown(context.Context) error {
+	enter := e.clock.Tick()
+	if e.logger != nil {
+		var r log.Record
+		r.SetBody(log.StringValue("x"))
+		r.SetSeverity(log.SeverityInfo)
+		e.logger.Emit(context.Background(), r)
+	}
 	e.mu.Lock()
-	iv := ival{Enter: e.clock.Tick()}
-	iv.Exit = e.clock.Tick()
-	e.shutdowns = append(e.shutdowns, iv)
+	e.shutdowns = append(e.shutdowns, ival{Enter: enter, Exit: e.clock.Tick()})
 	e.mu.Unlock()
 	return nil
 }
@@ -196,12 +222,12 @@ func execLog(p LProg) (*lhist, func()) {
 		case lRec, lRecErr:
 			lp.rec = &recLogProc{clock: clock, fail: k == lRecErr, slow: p.Slow}
 			proc = lp.rec
-		case lSimple:
+		case lSimple, lSimpleRS:
 			lp.exp = &recLogExp{clock: clock}
 			proc = sdklog.NewSimpleProcessor(lp.exp)
 		case lSimpleNil:
 			proc = sdklog.NewSimpleProcessor(nil)
-		case lBatch:
+		case lBatch, lBatchRS:
 			lp.exp = &recLogExp{clock: clock}
 			bp := sdklog.NewBatchProcessor(lp.exp, sdklog.WithExportInterval(time.Hour))
 			proc = bp
@@ -216,6 +242,11 @@ func execLog(p LProg) (*lhist, func()) {
 	}
 	prov := sdklog.NewLoggerProvider(opts...)
 	base := prov.Logger("base")
+	for _, lp := range h.procs {
+		if lp.kind == lSimpleRS || lp.kind == lBatchRS {
+			lp.exp.logger = prov.Logger("exporter")
+		}
+	}
 	loggerNames := []string{"a", "b", "", "a"}
 
 	type handle struct {
@@ -316,6 +347,8 @@ func (h *lhist) render() []string {
 					out = append(out, fmt.Sprintf("t=%d..%d   %s: Shutdown", e.Tick, e.Exit, name))
 				case 'f':
 					out = append(out, fmt.Sprintf("t=%d   %s: ForceFlush", e.Tick, name))
+				case 'x':
+					out = append(out, fmt.Sprintf("t=%d   %s: observed a record of a re-entrant exporter", e.Tick, name))
 				default:
 					out = append(out, fmt.Sprintf("t=%d   %s: OnEmit(r%d)", e.Tick, name, e.Span))
 				}
@@ -559,7 +592,7 @@ func runLogSeq(p LProg) ([]vk.Violation, vk.Info) {
 func TestLogLifecycle(t *testing.T) {
 	vk.Run(t, vk.Spec[LProg]{
 		Property: "C15", Check: "log_lifecycle",
-		Rule: "generated op lists (1-48 ops: Logger / Emit through the logger obtained at construction, through loggers obtained earlier or right now / ForceFlush / Shutdown with live or already-cancelled contexts, repeated) on a LoggerProvider with 0-4 processors drawn from recording processors (one failing), SimpleProcessor and BatchProcessor around a recording exporter and around nil; " +
+		Rule: "generated op lists (1-48 ops: Logger / Emit through the logger obtained at construction, through loggers obtained earlier or right now / ForceFlush / Shutdown with live or already-cancelled contexts, repeated) on a LoggerProvider with 0-4 processors drawn from recording processors (one failing), SimpleProcessor and BatchProcessor around a recording exporter, around nil and around a re-entrant exporter whose Shutdown emits a record through the same provider; " +
 			"non-trivial = at least one processor, a Shutdown with a live context returned nil and an Emit follows it; distinct = distinct case encodings",
 		Quick: 2000, Thorough: 25000,
 		Gen: genLogSeq, Run: runLogSeq,
